@@ -36,3 +36,14 @@ void h_dialer_start_pipe(void) { nni_dialer *d; nni_pipe *p; VP_HAVOC_GHOSTS(); 
 void h_pipe_start(void) { nni_pipe *p; VP_HAVOC_GHOSTS(); nni_pipe_start(p); VP_CANARY(); }
 void h_pipe_remove(void) { nni_pipe *p; VP_HAVOC_GHOSTS(); nni_pipe_remove(p); VP_CANARY(); }
 void h_pipe_reap(void) { void *arg; VP_HAVOC_GHOSTS(); pipe_reap(arg); VP_CANARY(); }
+void h_listener_accept_start(void) { nni_listener *l; VP_HAVOC_GHOSTS(); listener_accept_start(l); VP_CANARY(); }
+void h_listener_timer_cb(void) { void *arg; VP_HAVOC_GHOSTS(); listener_timer_cb(arg); VP_CANARY(); }
+void h_listener_accept_cb(void) { void *arg; VP_HAVOC_GHOSTS(); listener_accept_cb(arg); VP_CANARY(); }
+void h_listener_start(void) { nni_listener *l; int flags; VP_HAVOC_GHOSTS(); nni_listener_start(l, flags); VP_CANARY(); }
+void h_listener_stop(void) { nni_listener *l; VP_HAVOC_GHOSTS(); nni_listener_stop(l); VP_CANARY(); }
+void h_dialer_connect_start(void) { nni_dialer *d; VP_HAVOC_GHOSTS(); dialer_connect_start(d); VP_CANARY(); }
+void h_dialer_timer_cb(void) { void *arg; VP_HAVOC_GHOSTS(); dialer_timer_cb(arg); VP_CANARY(); }
+void h_dialer_connect_cb(void) { void *arg; VP_HAVOC_GHOSTS(); dialer_connect_cb(arg); VP_CANARY(); }
+void h_dialer_start_aio(void) { nni_dialer *d; unsigned flags; nni_aio *aiop; VP_HAVOC_GHOSTS(); nni_dialer_start_aio(d, flags, aiop); VP_CANARY(); }
+void h_dialer_start(void) { nni_dialer *d; unsigned flags; VP_HAVOC_GHOSTS(); nni_dialer_start(d, flags); VP_CANARY(); }
+void h_dialer_stop(void) { nni_dialer *d; VP_HAVOC_GHOSTS(); nni_dialer_stop(d); VP_CANARY(); }
